@@ -481,7 +481,15 @@ func (db *Database) collectResults(scores map[int]float64, pq *nlp.ProcessedQuer
 	// every scored document becomes a result, so the exact capacity is known; Limit*3 could
 	// overflow to a negative capacity for huge limits and panic in make
 	results := make([]SearchResult, 0, len(scores))
-	for docID, score := range scores {
+	// visit the scored documents in index order: the map's iteration order would otherwise decide
+	// how commands with equal scores are ranked (the sorts that follow compare scores only)
+	docIDs := make([]int, 0, len(scores))
+	for docID := range scores {
+		docIDs = append(docIDs, docID)
+	}
+	sort.Ints(docIDs)
+	for _, docID := range docIDs {
+		score := scores[docID]
 		cmd := &db.Commands[docID]
 
 		// Apply intent-based boost if NLP is active
